@@ -161,6 +161,8 @@ func coordSites() []Site {
 			Leaves: map[string]string{"len(targets)": "nTargets", "len(r.scraping)": "nScraping"}},
 		{Name: "needUpdateEntry", File: "pkg/shard/shard.go", Func: "Shard.needUpdate", Sel: "if:1:2", Params: "(present : Bool) (sState tState : TState)", Ret: "Bool",
 			Leaves: map[string]string{"r.scraping[k] == nil": "!present", "r.scraping[k].TargetState": "sState", "v.TargetState": "tState"}},
+		// what an update request carries: the discovered target with these fields overwritten
+		{Name: "requestAssigns", File: rb, Func: "updateScrapingTargets", Ret: "assigned"},
 	}
 }
 
